@@ -23,6 +23,22 @@ def parseFieldTok (t : String) : Option Bytes :=
   | ["i", a] => a.toInt?.map intText
   | _ => none
 
+/-- a field of a struct: `b:<hex>` bytes, `i:<int>` an Int as text, `u:<nat>` a varint, `s:<int>` an int64 as its two's
+complement varint, `t:<secs>:<nanos>` a time, `k:<prefix>:<key>` a registered key (prefix bytes, then the key length-delimited) -/
+def parseFldTok (t : String) : Option Fld :=
+  match t.splitOn ":" with
+  | ["b", h] => (unhex h).map Fld.bytes
+  | ["i", a] => a.toInt?.map fun x => Fld.bytes (intText x)
+  | ["u", n] => n.toNat?.map Fld.uint
+  | ["s", a] => a.toInt?.map fun x => Fld.uint (toU64 x)
+  | ["t", a, n] => match a.toInt?, n.toNat? with
+    | some a, some n => some (Fld.bytes (encodeTime a n))
+    | _, _ => none
+  | ["k", p, k] => match unhex p, unhex k with
+    | some p, some k => some (Fld.bytes (p ++ lenPrefixed k))
+    | _, _ => none
+  | _ => none
+
 def stepCodec (p : CodecProg) (toks : List String) : CodecProg × String :=
   match toks with
   | ["reg", "send", h] => match unhex h with
@@ -62,6 +78,9 @@ def stepCodec (p : CodecProg) (toks : List String) : CodecProg × String :=
   | "amsg" :: _ :: pre :: toks => (p, match unhex pre, toks.mapM parseFieldTok with
     | some pre, some fs => "ok " ++ hx (encodeFlatMsg pre fs)
     | _, _ => "bad-op")
+  | "astruct" :: _ :: toks => (p, match toks.mapM parseFldTok with
+    | some fs => "ok " ++ hx (encodeStruct 1 fs)
+    | none => "bad-op")
   | ["pkey", pw, a] => (p, match pw.toNat?, unhex a with
     | some pw, some a => hx (powerKey Posmint.Generated.stakedValidatorsKey pw a)
     | _, _ => "bad-op")
